@@ -3,12 +3,12 @@
    from_record_column / extract_row_from_record), hand-modelled: the code works on Vec,
    &str and enums, outside the tools/rs2v.py subset.  Definitions only, no proofs.
 
-   Faithful to the code AS IT IS (tree with the fixes f7ee439 and b5de181), including what it
+   Faithful to the code AS IT IS (tree with the fixes b2f9dd3 and 43a41a5), including what it
    still gets wrong:
      * a Blob whose bytes look like a TOAST pointer comes back as ToastPointer;
      * the u16 end-offset accumulation overflows (dev profile: panic) above 65535 bytes.
-   (Before f7ee439 record_column_count returned 0 for a record without payload bytes, and
-   before b5de181 Float values were written with set_float8 into 4-byte Float4 columns.)
+   (Before b2f9dd3 record_column_count returned 0 for a record without payload bytes, and
+   before 43a41a5 Float values were written with set_float8 into 4-byte Float4 columns.)
    Conventions: bytes are Z in [0,256); floats are their IEEE bit patterns (f64: u64,
    f32: u32); text is its UTF-8 bytes; nat only for list positions and fuel. *)
 From Coq Require Import ZArith List Bool.
@@ -555,7 +555,7 @@ Definition is_vnull (v : value) : bool := match v with VNull => true | _ => fals
 (* Recorded defect of the tree (known_findings.d/C31.json), as a class of (schema, row):
      3  a 17-byte Blob starting 0xFE in a Blob column: read back as ToastPointer.
    Classes 1 (record without payload bytes read as all NULL) and 2 (Float4 written as 8
-   bytes) were repaired by f7ee439 and b5de181 and no longer exist. *)
+   bytes) were repaired by b2f9dd3 and 43a41a5 and no longer exist. *)
 Fixpoint has_toast_blob (s : schema) (row : list value) : bool :=
   match s, row with
   | t :: s', v :: r =>
